@@ -28,6 +28,7 @@ Fails(t) ==
   IN   If(\A i \in 2..Len(t.prios) : t.prios[i] <= t.prios[i - 1], "C01.pop_priority_increased")
   \cup (IF t.failed
         THEN    If(Len(lo) = 0 \/ Exhausted(t), "C01.failed_but_derivation_exists")
+           \cup If(Len(lo) = 0 \/ Exhausted(t), "C16.failed_although_a_derivation_over_admitted_tags_exists")
            \cup If(t.ph.n = 1 /\ t.ph.neginf, "C09.placeholder_score_not_minus_infinity")
            \cup If(t.ph.n = 1 /\ t.ph.leaf, "C02.placeholder_shape")
         ELSE UNION {TreeFails(t, i) : i \in 1..Len(t.trees)}
